@@ -245,9 +245,21 @@ def add_protection_variants_stream(env, res=None, directory: str = 'sy5') -> dic
     kid2 = bytes.fromhex('a2c786d0f9ef4cb3b333cd323a4284a5')
     pssh = bw.full(b'pssh', 1, 0, bytes.fromhex('1077efecc0b24d02ace33c1e52e2fb4b') +
                    struct.pack('>I', 2) + kid + kid2 + struct.pack('>I', 0))
+    # an encrypted file whose stored moov already carries pssh boxes of the packager (a PlayReady one with
+    # another licence URL and a "common" one): requested protection data is added, stored boxes stay
+    a2 = (fx / 'bbb_a2_enc.mp4').read_bytes()
+    kid_a2 = ib.index_file(a2).tenc['kid']
+    stored = bw.full(b'pssh', 0, 0, bytes.fromhex('9a04f07998404286ab92e65be0885f95') + struct.pack('>I', 10) + b'packager!!') + \
+        bw.full(b'pssh', 1, 0, bytes.fromhex('1077efecc0b24d02ace33c1e52e2fb4b') + struct.pack('>I', 1) + kid_a2 + struct.pack('>I', 0))
+    root = ib.parse_file(a2)
+    moov = root.find(b'moov')
+    a2s = bytearray(a2)
+    _patch_sizes(a2s, [moov], len(stored))
+    a2s[moov.end:moov.end] = stored
     files = {'sy5_v1': (fx / 'bbb_v7.mp4').read_bytes(),
              'sy5_v1_enc': drop_mehd((fx / 'bbb_v7_enc.mp4').read_bytes()),
-             'sy5_a1_enc': restructure(a_enc, moof_pssh=pssh)}
+             'sy5_a1_enc': restructure(a_enc, moof_pssh=pssh),
+             'sy5_a2_enc': bytes(a2s)}
     for name, data in files.items():
         assert len(ib.index_file(data).segments) == 10, name
     env.add_stream(directory, title='Synthetic: no mehd, two key ids', files=files)
